@@ -1,11 +1,15 @@
 package checks
 
 import (
+	"os"
+
 	"fmt"
+	"github.com/rulego/streamsql/window"
 	"math/rand"
 	"sort"
 
 	"verif/internal/core"
+	"verif/internal/eng"
 	"verif/internal/sched"
 )
 
@@ -41,6 +45,9 @@ func genEvSliding(ref core.CaseRef, r *rand.Rand) *evCase {
 
 func runC08(ctx *core.Ctx) {
 	evCtx = ctx
+	if os.Getenv("VERIF_ENGINE_DEBUG") != "" {
+		window.EnableDebug = true // engine-side trace on stderr (diagnosis of a replayed case only)
+	}
 	ctx.SetRule("case = ((size,slide) incl. slide∤size, slide=size, slide>size; MAXOUTOFORDERNESS; 0-4 groups; timestamp pattern; feed mode) from PRNG(seed,index), closed by a sentinel; " +
 		"non-trivial = at least 3 intervals delivered and some row covered by 2+ intervals or out-of-order/late input; distinct by (SQL, rows, feed) hash")
 	ctx.Assume("single producer; block strategy", "a missing interval is declared only after a long engine-quiet wait")
@@ -110,6 +117,28 @@ func execC08(ctx *core.Ctx, c *evCase) {
 		if len(e.acc) > 0 {
 			mustHave++
 		}
+	}
+	c.complete = func(dels []eng.Delivery) bool {
+		wins, err := evDecode(dels)
+		if err != nil {
+			return true
+		}
+		type sg struct {
+			s int64
+			g string
+		}
+		got := map[sg]bool{}
+		for _, w := range wins {
+			got[sg{w.Start, tkey(c.keyOf(evRow{K: w.K}))}] = true
+		}
+		for s, e := range expected {
+			for g := range e.acc {
+				if !got[sg{s, g}] {
+					return false
+				}
+			}
+		}
+		return true
 	}
 	res := c.run(mustHave)
 	attrs := evShape(c)
